@@ -1,9 +1,106 @@
-(** * C12 — the chain stays a well-formed path and survives reopen (provisional: being extended) *)
+(** * C12 — the snapshot chain stays a well-formed path and survives reopen unchanged.
+
+    Model: Meta (coq/theories/Meta/Model.v — replica/replica.go as a sequence of file-system calls plus
+    the in-memory triple diskData / activeDiskData / diskChildrenMap).  Definitions used below:
+    - [created g size now]: the state after Server.Create on an empty directory;
+    - [run_ops g s os]: the history [os] from [s]; operations: create / open / close / process death
+      between operations / set-mode / write / snapshot / remove / mark-removed / revert / resize /
+      set-checkpoint / set-rebuilding, and [OCrashIn k o]: process death inside [o] after k calls;
+      arguments are arbitrary (unknown names, head, latest, base, wrong mode, duplicate names);
+    - [recover g w]: what a restarted process reads from directory [w] (None: cannot be opened);
+    - [linked f l]: every member of [l] has its image and its metadata file in [f], the metadata holds
+      the member's record, and Parent is the next member (the last has none).
+
+    FULL STATEMENT (C12_wf): for every g with 2 <= maxlen, every size <> 0 and EVERY history os,
+    the conclusion of [C12_wf_partial] holds.  That is false for the code as it is
+    ([C12_wf_refuted_revert], [C12_wf_refuted_children]); it is proved
+    - for the code as it is, for every history whose arguments avoid exactly the two shapes of the
+      findings ([ok_hist]: a revert whose target exists but is not a non-head chain member; a snapshot
+      name that was removed earlier in the same session) — [C12_wf_partial];
+    - for the code with the three argument repairs (cfg flags fix_dup, fix_rev, fix_children), for every
+      history — [C12_wf_repaired]. *)
 From Coq Require Import List ZArith NArith Bool Arith.
 From Jiva Require Import Meta.Model Meta.Corr Meta.Proofs.
 Import ListNotations.
 
-Theorem C12_crash_prefix : forall A (p : prog A) w cnt k,
-  dir_of_run (exec p w cnt (Some (cnt + k)) None) = nth k (states p w) (last (states p w) w).
-Proof. exact crash_prefix. Qed.
-Print Assumptions C12_crash_prefix.
+(** the conclusion: a single acyclic path from the head to the base in which every member has its
+    data and metadata file, and a memory that agrees with the directory *)
+Definition chain_wf (g : cfg) (s : st) : Prop :=
+  exists v, recover g (s_fs s) = Some v
+    /\ NoDup (names_of_chain (cv_chain v))
+    /\ first_name (cv_chain v) = i_head (cv_info v)
+    /\ linked (files (s_fs s)) (cv_chain v)
+    /\ length (cv_chain v) <= maxlen g
+    /\ match s_mem s with
+       | Some m => mchain g m = Some (names_of_chain (cv_chain v))
+                   /\ (forall d, m_disks m d = option_map mb_disk (find_mb d (cv_chain v)))
+                   /\ (forall d, In d (names_of_chain (cv_chain v)) -> m_children m (Some d) = child_in d (cv_chain v))
+                   /\ m_active m = rev (names_of_chain (cv_chain v))
+                   /\ info_sim (m_info m) (cv_info v)
+       | None => True
+       end.
+
+Theorem C12_wf_partial : forall g size now os,
+  cfg_ok g -> size <> 0%N -> ok_hist g (created g size now) os ->
+  chain_wf g (run_ops g (created g size now) os).
+Proof. intros g size now os H1 H2 H3. apply InvS_facts. apply C12_wf_thm; assumption. Qed.
+Print Assumptions C12_wf_partial.
+
+Theorem C12_wf_repaired : forall g size now os,
+  cfg_ok g -> size <> 0%N ->
+  fix_dup g = true -> fix_rev g = true -> fix_children g = true ->
+  Forall shape_ok os ->
+  chain_wf g (run_ops g (created g size now) os).
+Proof.
+  intros g size now os H1 H2 F1 F2 F3 Hs. apply InvS_facts. apply C12_wf_thm; try assumption.
+  apply ok_hist_repaired; try assumption. apply created_inv; assumption.
+Qed.
+Print Assumptions C12_wf_repaired.
+
+Theorem C12_wf_refuted_revert :
+  let g := cfg_asis 8 in
+  let s := run_ops g wit_state [OSnap 1 false 1] in
+  InvS g s /\ snd (fst (step g s (ORevert (Head 1) 5))) = ResFailed
+  /\ recover g (s_fs (fst (fst (step g s (ORevert (Head 1) 5))))) = None.
+Proof. exact wf_refuted_revert_target. Qed.
+Print Assumptions C12_wf_refuted_revert.
+
+Theorem C12_wf_refuted_children :
+  let g := cfg_asis 8 in
+  let s := run_ops g wit_state [OSnap 1 false 1; OSnap 2 false 2; OSnap 3 false 3; ORemove (Snap 2); OSnap 2 false 4] in
+  match s_mem s with
+  | Some m => mchain g m = Some [Head 4; Snap 2; Snap 3; Snap 1] /\ m_children m (Some (Snap 2)) = [Snap 3; Head 4]
+  | None => False
+  end.
+Proof. exact wf_refuted_children_stale. Qed.
+Print Assumptions C12_wf_refuted_children.
+
+(** close (how = true) or process death between operations (how = false), then open: the same chain
+    (names, inodes, Parent / Removed / UserCreated / Created per member — [veq]), the open succeeds
+    and the new memory shows that chain.  From every invariant state, hence (C12_wf_partial) from
+    every reachable one. *)
+Theorem C12_reopen_roundtrip : forall g w m (how : bool),
+  cfg_ok g -> InvS g (mkst w (Some m)) ->
+  let s1 := fst (fst (step g (mkst w (Some m)) (if how then OClose else OCrash))) in
+  let s2 := fst (fst (step g s1 OOpen)) in
+  exists v v2 m2,
+    recover g w = Some v /\ recover g (s_fs s2) = Some v2 /\ veq v v2
+    /\ snd (fst (step g s1 OOpen)) = ResOk
+    /\ s_mem s2 = Some m2 /\ mchain g m2 = Some (names_of_chain (cv_chain v))
+    /\ (forall d, m_disks m2 d = option_map mb_disk (find_mb d (cv_chain v2))).
+Proof. exact reopen_roundtrip. Qed.
+Print Assumptions C12_reopen_roundtrip.
+
+(** an operation that does not return success leaves the recovered view and the memory as they were *)
+Theorem C12_refused_unchanged : forall g s o,
+  cfg_ok g -> InvS g s -> plain o -> ok_op g s o ->
+  snd (fst (step g s o)) <> ResOk ->
+  recover g (s_fs (fst (fst (step g s o)))) = recover g (s_fs s) /\ s_mem (fst (fst (step g s o))) = s_mem s.
+Proof. exact refused_unchanged. Qed.
+Print Assumptions C12_refused_unchanged.
+
+(** the invariant used above is the one every reachable state has *)
+Theorem C12_reachable_invariant : forall g size now os,
+  cfg_ok g -> size <> 0%N -> ok_hist g (created g size now) os -> InvS g (run_ops g (created g size now) os).
+Proof. exact C12_wf_thm. Qed.
+Print Assumptions C12_reachable_invariant.
